@@ -451,3 +451,78 @@ func GammaIncInt(a int, x float64) (p, q *big.Float) {
 	p = nf(prec).Mul(tail, Exp(nf(prec).Neg(bx)))
 	return p, q
 }
+
+// NormQuantile returns z with Phi(z) = p for a float64 0 < p < 1, to ~120 bits.
+func NormQuantile(p float64) *big.Float {
+	const prec = 256
+	if !(p > 0 && p < 1) {
+		panic("ref.NormQuantile: p outside (0,1)")
+	}
+	target := nf(prec).SetFloat64(p)
+	// float64 starting point by bisection on erfc (monotone, no library code involved)
+	lo, hi := -40.0, 40.0
+	for i := 0; i < 120; i++ {
+		mid := (lo + hi) / 2
+		if 0.5*math.Erfc(-mid/math.Sqrt2) < p {
+			lo = mid
+		} else {
+			hi = mid
+		}
+	}
+	z := nf(prec).SetFloat64((lo + hi) / 2)
+	sqrt2pi := Sqrt(nf(prec).Mul(Pi(prec), nf(prec).SetInt64(2)))
+	for it := 0; it < 8; it++ {
+		F := NormCDFBig(z)
+		d := nf(prec).Sub(nf(prec).Set(F), target)
+		z2 := nf(prec).Mul(z, z)
+		z2.Quo(z2, nf(prec).SetInt64(-2))
+		pdf := Exp(z2)
+		pdf.Quo(pdf, sqrt2pi)
+		d.Quo(d, pdf)
+		z.Sub(z, d)
+		if d.Sign() == 0 || d.MantExp(nil) < z.MantExp(nil)-110 {
+			break
+		}
+	}
+	return z
+}
+
+// GaussLegendre returns the nodes and weights of the n-point rule on [-1,1].
+func GaussLegendre(n int) (xs, ws []float64) {
+	xs = make([]float64, n)
+	ws = make([]float64, n)
+	for i := 0; i < (n+1)/2; i++ {
+		x := math.Cos(math.Pi * (float64(i) + 0.75) / (float64(n) + 0.5))
+		var pp float64
+		for it := 0; it < 100; it++ {
+			p1, p2 := 1.0, 0.0
+			for j := 0; j < n; j++ {
+				p3 := p2
+				p2 = p1
+				p1 = ((2*float64(j)+1)*x*p2 - float64(j)*p3) / float64(j+1)
+			}
+			pp = float64(n) * (x*p1 - p2) / (x*x - 1)
+			dx := p1 / pp
+			x -= dx
+			if math.Abs(dx) < 1e-16 {
+				break
+			}
+		}
+		xs[i], xs[n-1-i] = -x, x
+		w := 2 / ((1 - x*x) * pp * pp)
+		ws[i], ws[n-1-i] = w, w
+	}
+	return
+}
+
+var gl20x, gl20w = GaussLegendre(20)
+
+// Integrate20 integrates f over [a,b] with the 20-point Gauss-Legendre rule.
+func Integrate20(f func(float64) float64, a, b float64) float64 {
+	h, m := (b-a)/2, (a+b)/2
+	s := 0.0
+	for i, x := range gl20x {
+		s += gl20w[i] * f(m+h*x)
+	}
+	return s * h
+}
